@@ -398,6 +398,50 @@ def bounded(ctx, b):
                 return False, {"raised_instead_of_the_line_length_error": repr(e)[:300]}
             return False, {"returned_silently": long_row}
         b.guard(("long_and_flash", dbl_, long_first), both, sample={"case": "over-long line and a one-frame caption in one stream", "doubled": dbl_, "long_line_in_the_flash_caption": long_first})
+    # rows built word by word: braces (extended characters, sent as a stand-in and its replacement) in an over-long row -
+    # the message names the row as it is; two identical special characters with a null padding word between them are two
+    # characters; a row that repeats the text of the row above and goes on after a mid-row code
+    def custom(name, rows_words, long_texts, dbl_=False):
+        for mode in ("pop", "roll", "paint"):
+            def run_custom(mode=mode):
+                if mode == "pop":
+                    ws = [C.ctrl("ENM"), C.ctrl("RCL")] + sum(([C.pac(r)] + w for r, w in rows_words), []) + [C.ctrl("EDM"), C.ctrl("EOC")]
+                    lines = [(C.timecode(30), ws), (C.timecode(30 + len(ws) + 60), [C.ctrl("EDM")])]
+                elif mode == "paint":
+                    ws = [C.ctrl("RDC")] + sum(([C.pac(r)] + w for r, w in rows_words), [])
+                    lines = [(C.timecode(30), ws), (C.timecode(30 + len(ws) + 60), [C.ctrl("RDC")])]
+                else:
+                    lines, t = [], 30
+                    for r, w in rows_words:
+                        lines.append((C.timecode(t), [C.ctrl("RU2"), C.ctrl("CR"), C.pac(15)] + w))
+                        t += len(w) + 40
+                    lines.append((C.timecode(t), [C.ctrl("CR")]))
+                doc = C.scc_document(lines)
+                if dbl_:
+                    doc = doubled(doc)
+                try:
+                    cs = shared.read(doc)
+                except CaptionLineLengthError as e:
+                    return bool(long_texts) and all(f"{t_} - Length {len(t_)}" in str(e) for t_ in long_texts), {"raised": str(e)[:300], "long_rows": long_texts}
+                except Exception as e:
+                    return False, {"raised_instead_of_the_line_length_error": repr(e)[:300]}
+                too = [ln for cap in cs.get_captions("en-US") for ln in cap.get_text().split("\n") if len(ln) > 32]
+                return not too and not long_texts, {"returned_silently": too or long_texts}
+            b.guard(("custom", name, mode, dbl_), run_custom, sample={"case": name, "mode": mode, "doubled": dbl_})
+    brace = lambda ch: C.text_words("(" if ch == "{" else ")")[:1] + [C.extended(ch)]          # (stand-in, then the extended code that replaces it)
+    x30, x31 = C.text_words("x" * 30), C.text_words("x" * 31)
+    custom("braces_in_a_long_row", [(15, C.text_words("ab") + brace("{") + x30 + brace("}"))], ["ab{" + "x" * 30 + "}"])
+    custom("braces_in_a_row_that_fits", [(15, C.text_words("ab") + brace("{") + C.text_words("x" * 28) + brace("}"))], [])
+    custom("long_row_next_to_a_row_with_braces", [(13, C.text_words("cd") + brace("}") + brace("{")), (15, C.text_words("y" * 34))], ["y" * 34])
+    note = C.special("\u266a")
+    custom("two_notes_with_a_null_between", [(15, [note, "8080", note] + C.text_words("a" * 31))], ["\u266a\u266a" + "a" * 31])
+    custom("two_notes_with_a_null_between_that_fit", [(15, [note, "8080", note] + C.text_words("a" * 30))], [])
+    custom("two_notes_with_a_null_between_doubled", [(15, [note, note, "8080", note, note] + C.text_words("a" * 31))], ["\u266a\u266a" + "a" * 31])
+    for mode in ("pop", "paint"):
+        # the styled row repeats the row above up to the mid-row code (5 + 1 + 27 = 33 columns), in both orders of transmission
+        for rows in ([(14, "la la"), (15, "la la~_" + "x" * 27)], [(15, "la la~_" + "x" * 27), (14, "la la")],
+                     [(14, "la la"), (15, "la la~_" + "x" * 26)]):
+            cases.append((mode, True, [rows]))
     for mode, term, sets, *rest in cases:
         cr = bool(rest and rest[0])
         dbl = bool(len(rest) > 1 and rest[1])
